@@ -156,6 +156,17 @@ def make_designs(ctx: Ctx, n: int):
                     rec = copy.deepcopy(rng.choice(f0['records']))
                     rec['info'] = {d['vcfs'][1]['id_tag']: '77'} if d['vcfs'][1].get('id_tag') else {}
                     d['vcfs'][1]['records'].append(rec)
+        if d['mode'] == 'sge' and i % 7 == 3:
+            # two contigs in one run whose targetons share sgRNA names (the edits differ): the order of the targeton rows decides which
+            # contig is processed first
+            e = gen.gen_sge(rng, dict(focus, p_pam=1.0, p_bg=0.0, n_targetons=1, p_gtf=1.0 if d.get('gtf') else 0.0))
+            d0 = gen.gen_sge(rng, dict(focus, p_pam=1.0, p_bg=0.0, n_targetons=rng.choice([1, 2]), p_gtf=1.0 if d.get('gtf') else 0.0))
+            for x in (d0, e):
+                x['extra_contigs'] = {}
+                for f in x.get('vcfs') or []:
+                    f['records'] = [r for r in f['records'] if r.get('contig', x['contig']) == x['contig']]
+            from .. import merge
+            d = merge.merge_designs(d0, e, same_contig=False)
         out.append(d)
     return out
 
